@@ -18,7 +18,7 @@ KidChoicesH(hh, c, f) ==
     LET kd == Kind[c][f] IN
     IF kd = "one" THEN SlotsOfH(hh, Allowed[c][f])
     ELSE IF kd = "opt" THEN SlotsOfH(hh, Allowed[c][f]) \cup {NoSlot}
-    ELSE IF kd = "tuple"
+    ELSE IF kd \in {"tuple", "list"}
          THEN UNION {[1..len -> SlotsOfH(hh, Allowed[c][f])] : len \in 0..MaxTuple}
     ELSE {t \in [1..Len(Allowed[c][f]) -> DOMAIN hh] :
              \A j \in 1..Len(Allowed[c][f]) : hh[t[j]].c \in Allowed[c][f][j]}
